@@ -63,6 +63,7 @@ type Observed struct {
 	FeedIdle     []HeadJ `json:"feed_idle"`
 	// geth family: what the fake node pushed on the subscription / answered to eth_getLogs
 	Emitted      []Log    `json:"emitted,omitempty"`
+	Inflight     []bool   `json:"inflight,omitempty"`
 	FilterGot    [][]Log  `json:"filter_got,omitempty"`
 	GethProblems []string `json:"geth_problems,omitempty"`
 }
@@ -184,10 +185,11 @@ func fromSU(u *l1.StateUpdate) Log {
 // tapSub is the subscription handed to the client in the geth family: the real forwarder's
 // subscription plus the pump that moves its output onto the client's channel.
 type tapSub struct {
-	inner l1.Subscription
-	quit  chan struct{}
-	errc  chan error
-	once  sync.Once
+	inner    l1.Subscription
+	quit     chan struct{}
+	errc     chan error
+	pumpDone chan struct{}
+	once     sync.Once
 }
 
 func (t *tapSub) Err() <-chan error { return t.errc }
@@ -215,21 +217,37 @@ func (p *provider) gate() {
 		p.cond.Wait()
 	}
 }
+
+// Unsubscribe returns, like go-ethereum's event.Subscription, only when the producer side is dead:
+// the real forwarder has stopped and the pump has handed over what the forwarder had already put
+// on its channel — nothing of the old subscription can arrive after the next one is set up.
 func (t *tapSub) Unsubscribe() {
-	t.once.Do(func() { close(t.quit) })
 	t.inner.Unsubscribe()
+	t.once.Do(func() { close(t.quit) })
+	<-t.pumpDone
 }
 
 // pump forwards what the REAL forwardStateUpdates goroutine delivers to the client's channel,
 // under the same mutex as the provider marks (exact consumed counts), and filters the sentinels.
-func (p *provider) pump(mid chan *l1.StateUpdate, out chan<- *l1.StateUpdate, quit chan struct{}) {
+func (p *provider) pump(mid chan *l1.StateUpdate, out chan<- *l1.StateUpdate, quit, done chan struct{}) {
+	defer close(done)
 	n := 0
+	stopping := false
 	for {
 		var su *l1.StateUpdate
-		select {
-		case su = <-mid:
-		case <-quit:
-			return
+		if stopping {
+			select {
+			case su = <-mid: // what the forwarder had already delivered
+			default:
+				return
+			}
+		} else {
+			select {
+			case su = <-mid:
+			case <-quit:
+				stopping = true
+				continue
+			}
 		}
 		if n++; n%3 == 0 {
 			time.Sleep(150 * time.Microsecond) // a consumer that is sometimes slow
@@ -252,11 +270,7 @@ func (p *provider) pump(mid chan *l1.StateUpdate, out chan<- *l1.StateUpdate, qu
 				p.mu.Unlock()
 			default:
 				p.mu.Unlock()
-				select {
-				case <-quit:
-					return
-				case <-time.After(50 * time.Microsecond):
-				}
+				time.Sleep(50 * time.Microsecond)
 				continue
 			}
 			break
@@ -447,8 +461,8 @@ func (p *provider) WatchStateUpdate(ctx context.Context, ch chan<- *l1.StateUpda
 		p.mark(Mark{Kind: "watch"})
 		p.watched = true
 		p.ch = ch
-		ts := &tapSub{inner: isub, quit: make(chan struct{}), errc: make(chan error, 1)}
-		go p.pump(mid, ch, ts.quit)
+		ts := &tapSub{inner: isub, quit: make(chan struct{}), errc: make(chan error, 1), pumpDone: make(chan struct{})}
+		go p.pump(mid, ch, ts.quit, ts.pumpDone)
 		go p.watchInner(ts)
 		p.watchOK++
 		p.cond.Broadcast()
@@ -742,6 +756,7 @@ func runCase(c *Case) *Observed {
 	if p.node != nil {
 		p.node.mu.Lock()
 		obs.Emitted = append([]Log(nil), p.node.emitted...)
+		obs.Inflight = append([]bool(nil), p.node.inflight...)
 		p.node.mu.Unlock()
 	}
 	obs.FinalHead = p.storedHead()
@@ -801,10 +816,32 @@ func execGethOp(p *provider, op Op) bool {
 		p.node.finNotFound = op.N
 		p.node.mu.Unlock()
 		return true
+	case "suberr-inflight":
+		// logs (removal notices among them) are pushed and the connection is dropped while they
+		// are still on their way through go-ethereum's client and juno's forwarder
+		if !p.drain() {
+			return false
+		}
+		p.node.mu.Lock()
+		p.node.markInflight = true
+		p.node.mu.Unlock()
+		p.node.emit(op.Logs, true)
+		p.node.mu.Lock()
+		p.node.markInflight = false
+		p.node.mu.Unlock()
+		time.Sleep(time.Duration(op.N) * 100 * time.Microsecond)
+		return dropAndResubscribe(p)
 	case "suberr":
 		if !p.drain() {
 			return false
 		}
+		return dropAndResubscribe(p)
+	}
+	return true
+}
+
+func dropAndResubscribe(p *provider) bool {
+	{
 		// No provider call (hence no RPC of the client) is in flight while p.mu is held; further
 		// calls wait at the gate until go-ethereum's client has noticed the dead connection
 		// (a request written into a connection that is being torn down can hang until its
@@ -824,7 +861,6 @@ func execGethOp(p *provider, op Op) bool {
 		}
 		return p.waitFor(func() bool { return p.watchOK > before || p.closed })
 	}
-	return true
 }
 
 func execOp(p *provider, op Op) bool {
